@@ -44,6 +44,9 @@ type Scenario struct {
 	// Extra, if set, is called after the scenario finished and returns further
 	// cases the scenario enumerated inside its executions (count and identities).
 	Extra func() (cases int64, keys []uint64)
+	// RaceOnly scenarios (C36) are judged by the Go race detector alone: the verdict of Check is
+	// ignored (it belongs to another property), a race report during the execution is the violation.
+	RaceOnly bool
 }
 
 type replay struct {
@@ -145,8 +148,114 @@ func Main(registry func(property string, thorough bool) []Scenario) {
 
 func explorerFor(sc *Scenario, bound int) *vrt.Explorer {
 	return &vrt.Explorer{Cfg: sc.Cfg, Body: sc.Body, Bound: bound, Check: func(x *vrt.Exec) (string, string, string) {
-		return sc.Check(x)
+		return judge(sc, x)
 	}}
+}
+
+var (
+	raceSeen      int
+	raceOffset    int64
+	internalRaces int
+)
+
+// judge applies the scenario's oracle and, in a -race build, the race detector's verdict on this execution.
+func judge(sc *Scenario, x *vrt.Exec) (string, string, string) {
+	out, sig, detail := sc.Check(x)
+	if sc.RaceOnly {
+		sig, detail = "", ""
+		if x.Fail != nil && x.Fail.Kind == "engine" {
+			return out, "engine/" + x.Fail.Msg, x.Fail.Msg
+		}
+	}
+	if !vrt.RaceEnabled {
+		return out, sig, detail
+	}
+	if n := vrt.RaceErrors(); n > raceSeen {
+		raceSeen = n
+		// one execution may produce several reports: judge each, the first repository race is the verdict
+		for _, rep := range splitReports(newRaceReports()) {
+			rsig := RaceSignature(rep)
+			if strings.HasPrefix(rsig, "internal/") {
+				internalRaces++
+				continue
+			}
+			if sig == "" || sc.RaceOnly {
+				return "race", "race/" + rsig, rep
+			}
+		}
+	}
+	return out, sig, detail
+}
+
+func splitReports(all string) []string {
+	var out []string
+	for _, part := range strings.Split(all, "WARNING: DATA RACE") {
+		if strings.Contains(part, " at 0x") {
+			out = append(out, "WARNING: DATA RACE"+part)
+		}
+	}
+	return out
+}
+
+func newRaceReports() string {
+	p := os.Getenv("VERIF_RACE_LOG")
+	if p == "" {
+		return "(race report on stderr; VERIF_RACE_LOG not set)"
+	}
+	f, err := os.Open(fmt.Sprintf("%s.%d", p, os.Getpid()))
+	if err != nil {
+		return "(race report not found: " + err.Error() + ")"
+	}
+	defer f.Close()
+	f.Seek(raceOffset, 0)
+	b, _ := io.ReadAll(f)
+	raceOffset += int64(len(b))
+	return string(b)
+}
+
+// RaceSignature names a race by the access site of each of the two conflicting accesses: the first
+// frame below the runtime and standard-library helpers. Only a race between two sites inside the
+// repository is a verdict; reports whose sites lie in the scheduler/shims (their state is protected by
+// the baton, which is deliberately invisible to the detector) or in scenario code are internal.
+func RaceSignature(report string) string {
+	var sites []string
+	want := false
+	for _, l := range strings.Split(report, "\n") {
+		t := strings.TrimSpace(l)
+		low := strings.ToLower(t)
+		if strings.Contains(low, " at 0x") && strings.Contains(low, " by ") && (strings.HasPrefix(low, "read") || strings.HasPrefix(low, "write") || strings.HasPrefix(low, "previous") || strings.HasPrefix(low, "atomic")) {
+			want = true
+			continue
+		}
+		if strings.HasPrefix(t, "==================") && len(sites) >= 2 {
+			break
+		}
+		if !want || t == "" || strings.HasPrefix(t, "/") {
+			continue
+		}
+		if strings.HasPrefix(t, "runtime.") || strings.HasPrefix(t, "internal/") || strings.HasPrefix(t, "sort.") || strings.HasPrefix(t, "slices.") || strings.HasPrefix(t, "sync/atomic.") || strings.HasPrefix(t, "reflect.") {
+			continue
+		}
+		if i := strings.LastIndex(t, "("); i > 0 {
+			t = t[:i]
+		}
+		sites = append(sites, t)
+		want = false
+	}
+	if len(sites) < 2 {
+		return "internal/unattributed"
+	}
+	sites = sites[:2]
+	for _, st := range sites {
+		if !strings.HasPrefix(st, "github.com/gopcua/opcua") {
+			return "internal/" + sites[0] + "|" + sites[1]
+		}
+	}
+	for i := range sites {
+		sites[i] = strings.TrimPrefix(sites[i], "github.com/gopcua/opcua")
+	}
+	sort.Strings(sites)
+	return strings.Join(sites, "|")
 }
 
 func worker(prop string, scs []Scenario, jobFile string) {
@@ -170,8 +279,9 @@ func worker(prop string, scs []Scenario, jobFile string) {
 		evid.EngineError(prop, "worker: %v", err)
 	}
 	// fingerprints for the distinct-state count
-	fp := make([]byte, 0, 8*len(e.Visited()))
-	for k := range e.Visited() {
+	vis := e.Visited()
+	fp := make([]byte, 0, 8*len(vis))
+	for _, k := range vis {
 		fp = binary.LittleEndian.AppendUint64(fp, k)
 	}
 	os.WriteFile(jobFile+".fp", fp, 0o644)
@@ -187,7 +297,7 @@ func doReplay(prop string, scs []Scenario, rp replay) {
 		cfg := sc.Cfg
 		cfg.KeepTrace = true
 		x := vrt.Run(rp.Choices, cfg, sc.Body)
-		out, sig, detail := sc.Check(x)
+		out, sig, detail := judge(sc, x)
 		n := len(x.Trace)
 		from := 0
 		if n > 400 && os.Getenv("VERIF_FULL_TRACE") == "" {
@@ -282,7 +392,7 @@ func parent(prop string, scs []Scenario) {
 				frontier = e.Frontier(nw * 8)
 			}
 			res := e.Res
-			for k := range e.Visited() {
+			for _, k := range e.Visited() {
 				allFP[k] = struct{}{}
 			}
 			if len(frontier) > 0 && res.EngineErr == "" {
@@ -360,8 +470,11 @@ func parent(prop string, scs []Scenario) {
 	for _, s := range sigs {
 		h := hits[s]
 		for i := 0; i < 5; i++ {
+			if strings.HasPrefix(s, "race/") {
+				break // the race detector reports a given race once per process; the artefact replays in a fresh process
+			}
 			x := vrt.Run(h.found.Choices, h.sc.Cfg, h.sc.Body)
-			_, sig, _ := h.sc.Check(x)
+			_, sig, _ := judge(h.sc, x)
 			if sig != s {
 				evid.EngineError(prop, "violation %q of scenario %s does not replay deterministically (run %d gave %q)", s, h.sc.Name, i, sig)
 			}
@@ -389,6 +502,7 @@ func parent(prop string, scs []Scenario) {
 	r.Set("deviation_bound_completed", boundDone)
 	r.Set("outcomes_per_scenario", outcomesPer)
 	r.Set("race_detector", vrt.RaceEnabled)
+	r.Set("race_reports_internal_to_scheduler_or_scenario", internalRaces)
 	r.Finish()
 }
 
